@@ -10,6 +10,11 @@ import traceback
 
 
 def main():
+    # BBVERIF_REPO=<tree>: analyse (and replay against) another checkout of the repository, e.g. a scratch
+    # worktree carrying a seeded change.  Default /repo.  The real package is imported from that tree too.
+    repo = os.environ.get("BBVERIF_REPO")
+    if repo:
+        sys.path.insert(0, os.path.join(repo, "src"))
     ap = argparse.ArgumentParser()
     ap.add_argument("pid")
     ap.add_argument("--tier", default=os.environ.get("VERIF_TIER", "quick"), choices=["quick", "thorough"])
